@@ -363,6 +363,26 @@ def exec_chi2(trace, ctx):
         dt = rng.choice([np.int64, np.int32, np.int16, np.uint8 if max(nf, nm) < 256 else np.int32, np.int8 if max(nf, nm) < 128 else np.int16])
         restr_arg = np.array(restr, dtype=dt)
         ctx.probe("restraints_as_small_int_array")
+    def sibling(fixed_other, when):
+        """Another calculator with the SAME restraint list on another fixed set (same species, another selection of atoms):
+        whether 'every fixed atom is restrained' is a fact about each calculator, not about the list."""
+        try:
+            c2 = Chi2Calculator(fixed_other.copy(), mob0.copy(), [tuple(r) for r in restr])
+            v2 = float(c2(mob0.copy()))
+        except Exception as e:
+            ctx.violate("C08", "chi2-raised", f"a second calculator with the same restraint list raised {type(e).__name__}: {e}")
+            return
+        w2, _k2, amb_ = naive_chi2(fixed_other, mob0, restr)
+        if not amb_ and (not math.isfinite(v2) or abs(v2 - w2) > 1e-9 * max(abs(w2), 1e-300)):
+            ctx.violate("C08", "chi2-value", f"a calculator built {when} another one with the same restraint list gives {v2!r}; the "
+                                             f"reference definition {w2!r} ({len(fixed_other)} fixed atoms, {len(restr)} restraints)",
+                        key="sibling")
+        ctx.probe("sibling_calculator_same_restraints")
+    sib = restr and trace["seed"] % 2 == 0 and form == 0
+    if sib:
+        fmax = max(i for i, _ in restr)
+        if fmax + 1 < nf:
+            sibling(fixed[:fmax + 1], "before")          # fewer fixed atoms (possibly all of them restrained)
     fixed_in_snap = fixed_in.copy()
     mob0_in = mob0.copy()
     try:
@@ -484,6 +504,9 @@ def exec_chi2(trace, ctx):
                                                    f"atoms and restraints (path '{path}')", key=path)
             return
     inputs_intact("after the evaluations")
+    if sib:
+        extra_rows = np.array([[rng.uniform(-sp, sp) for _ in range(3)] for _ in range(rng.randint(1, 4))]) + far
+        sibling(np.vstack([fixed, extra_rows]), "after")          # more fixed atoms, the extra ones unrestrained
     ctx.nontrivial = True
     ctx.op("chi2", path)
     ctx.sig.append((nf, nm, len(restr)))
